@@ -47,7 +47,22 @@ SeqsOf(G, syms, d) ==
   IF syms = <<>> THEN { <<>> }
   ELSE { <<h>> \o r : h \in TreesOf(G, Head(syms), d), r \in SeqsOf(G, Tail(syms), d) }
 
-TreesUpTo(G, start, d, maxNodes) == { t \in TreesOf(G, SymNT(start), d) : Size(t) <= maxNodes }
+(* all closed trees rooted at sym with height <= d and at most n nodes; the  *)
+(* node budget is split among the children, so the enumeration never builds  *)
+(* trees that are too large                                                  *)
+RECURSIVE TreesN(_, _, _, _), SeqsN(_, _, _, _)
+TreesN(G, sym, d, n) ==
+  IF n < 1 THEN {}
+  ELSE IF ~sym.nt THEN { TermNode(sym.c, 0) }
+  ELSE IF d = 0 THEN {}
+  ELSE UNION { { NTNode(sym.n, cs, 0) : cs \in SeqsN(G, G[sym.n][a], d - 1, n - 1) }
+               : a \in 1..Len(G[sym.n]) }
+SeqsN(G, syms, d, n) ==
+  IF syms = <<>> THEN { <<>> }
+  ELSE IF n < Len(syms) THEN {}
+  ELSE UNION { { <<h>> \o r : r \in SeqsN(G, Tail(syms), d, n - Size(h)) }
+               : h \in TreesN(G, Head(syms), d, n - (Len(syms) - 1)) }
+TreesUpTo(G, start, d, maxNodes) == TreesN(G, SymNT(start), d, maxNodes)
 
 (* all open trees obtained from t by turning a set of pairwise non-nested  *)
 (* nonterminal nodes into open leaves (ids are kept) *)
